@@ -442,8 +442,8 @@ V("C13", "copy_on_write_without_invalidation", "fire", "R13.a", (Z, """         
 """, """                type.__setattr__(mcs,attribute_name,parameter)
 """))
 V("C13", "invalidate_after_inheritance", "fire", "R13.a", (Z, """                mcs._clear_params_cache()
-                mcs.__param_inheritance(attribute_name,value)
-""", """                mcs.__param_inheritance(attribute_name,value)
+                mcs._initialize_parameter(attribute_name,value)
+""", """                mcs._initialize_parameter(attribute_name,value)
                 mcs._clear_params_cache()
 """))
 V("C13", "clear_skips_subclasses", "fire", "R13.a", (Z, "        for cls in descendents(mcs):\n            private = cls.__dict__.get('_param__private')", "        for cls in [mcs]:\n            private = cls.__dict__.get('_param__private')"))
@@ -1948,3 +1948,4 @@ V("C02", "dynamic_state_attached_to_reference", "fire", "R02.d", (P, """        
             val = obj._param__private.values.get(self.name)
             dynamic = callable(val) and not hasattr(val, '_Dynamic_last')
 """, ""))
+V("C13", "class_level_parameter_not_named", "fire", "R13.h", (Z, "                mcs._clear_params_cache()\n                mcs._initialize_parameter(attribute_name,value)", "                mcs._clear_params_cache()\n                mcs.__param_inheritance(attribute_name,value)"))
